@@ -8,17 +8,17 @@ VERIF = os.path.dirname(os.path.dirname(os.path.abspath(__file__)))
 CLAIMED = {
     "C01": ("exploration",
             "stateful property-based testing (rapid): branching operation histories over a pool of live meshes with a bit-exact snapshot invariant after every step",
-            "Generated histories (up to 40 steps, <= 8 live meshes) of ~55 public operations (Mesh methods, meshops, repeat, primitives, PLY/OBJ/glTF/STL writers) applied to drawn pool members, so several derivations branch off one base; after every step every live mesh is re-read through the accessors and compared bit for bit with the snapshot taken when it was obtained. A drawn share of steps derives siblings from the previous step's base (two appends on one base with spare slice capacity), one fresh mesh in eight carries NaN/Inf/-0/extreme values, material names contain spaces, and a 'scan' step calls the read-only accessors between edits. Sub-check large-history: short histories whose pool starts with a recipe-built mesh above 65 536 vertices. Shrinks to a 5-step history for the Append defect. Sampling level (10^4..10^6 histories), not a proof.",
+            "Generated histories (up to 40 steps, <= 8 live meshes) of ~55 public operations (Mesh methods, meshops, repeat, primitives, PLY/OBJ/glTF/STL writers) applied to drawn pool members, so several derivations branch off one base; after every step every live mesh is re-read through the accessors and compared bit for bit with the snapshot taken when it was obtained. A drawn share of steps derives siblings from the previous step's base (two appends on one base with spare slice capacity), one fresh mesh in eight carries NaN/Inf/-0/extreme values, material names contain spaces, and a 'scan' step calls the read-only accessors between edits. Materials carry texture URIs (back-slashes, spaces) and are snapshotted two pointer levels deep; an MTL export step. Sub-check large-history: short histories whose pool starts with a recipe-built mesh above 65 536 vertices. Shrinks to a 5-step history for the Append defect. Sampling level (10^4..10^6 histories), not a proof.",
             "Trusted: oracle.Snapshot reads everything a mesh reports; operations that panic are no-ops for this property; aliasing needing > 40 steps or > 8 live values is out of reach.",
             "DESIGN.md §4 C01"),
     "C02": ("exploration",
             "property-based testing (rapid): generator parameterisations (small counts enumerated) and random operation chains against a well-formedness + accessor-walk validity predicate",
-            "Every one of 19 generator families over its accepted parameter range (rows/columns/sides grids enumerated exhaustively for small counts, sampled above) and chains of 1..8 operations from a 50-operation catalogue over generated well-formed meshes and earlier results must return meshes that pass oracle.WF (common attribute length, indices in range, index count fits topology, every primitive walkable) or report failure; a Go runtime error is a violation; every mesh of a chain is re-checked at the end of the chain (an earlier result must not become malformed later), chains favour sibling derivations, and one source in a drawn share has more than 65 536 vertices. Unmet preconditions are attempted only where the library checks them. Sampling level.",
+            "Every one of 19 generator families over its accepted parameter range (rows/columns/sides grids enumerated exhaustively for small counts, sampled above) and chains of 1..8 operations from a 50-operation catalogue over generated well-formed meshes and earlier results must return meshes that pass oracle.WF (common attribute length, indices in range, index count fits topology, every primitive walkable) or report failure; a Go runtime error is a violation; every mesh of a chain is re-checked at the end of the chain (an earlier result must not become malformed later), chains favour sibling derivations, and one source in a drawn share has more than 65 536 vertices; paths may be explicitly closed, one attribute name may exist in two dimensions. Sub-check node-generators: the 21 mesh-producing `...NodeData.Process()` wrappers (primitives, extrude, repeat, meshops) with every port unwired or wired to a generated constant incl. boundary counts/sizes. Unmet preconditions are attempted only where the library checks them. Sampling level.",
             "Trusted: oracle.WF, the precondition table in harness/internal/mops (implicit preconditions the library does not check are never violated).",
             "DESIGN.md §4 C02"),
     "C03": ("exploration",
             "property-based testing (rapid): generated meshes x 34 operations against reference implementations over per-corner attribute tuples (bit-exact) and float64 maps",
-            "Every layout operation is compared with a reference written from its contract over per-corner attribute tuples (exact by bit pattern, weld: first vertex of the rounding cell), every attribute transform with the stated per-vertex map plus 'indices, topology, materials and all other attributes bit-identical'; generator constructs non-identity indices, shared/duplicated/unreferenced vertices and mixed attribute arities; 'appendTwice' appends to one over-allocated base twice; sub-check large-meshes repeats the closed-form operations on recipe-built meshes above 65 536 vertices. Sub-check concurrent-*: 2-5 generated cases run at the same time on their own goroutines after each passed alone (no scratch state may be shared between calls). Sampling level.",
+            "Every layout operation is compared with a reference written from its contract over per-corner attribute tuples (exact by bit pattern, weld: first vertex of the rounding cell), every attribute transform with the stated per-vertex map plus 'indices, topology, materials and all other attributes bit-identical'; generator constructs non-identity indices, shared/duplicated/unreferenced vertices and mixed attribute arities; 'appendTwice' appends to one over-allocated base twice; operations without an absolute length in their contract also run at overall scales 1e-9..1e9; sub-check large-meshes repeats the closed-form operations on recipe-built meshes above 65 536 vertices. Sub-check concurrent-*: 2-5 generated cases run at the same time on their own goroutines after each passed alone (no scratch state may be shared between calls). Sampling level.",
             "Trusted: the reference implementations in harness/c03. Filters/crop only on point topology; don't-care band around minArea; undefined normals not compared.",
             "DESIGN.md §4 C03"),
     "C04": ("exploration",
@@ -33,37 +33,37 @@ CLAIMED = {
             "DESIGN.md §4 C05"),
     "C06": ("exploration",
             "property-based testing (rapid): generated scenes against an independent GLB/JSON/base64 reader applying the glTF 2.0 structural rules, then decoding and de-duplication checks",
-            "Generated scenes (0..5 models, shared/equal-by-value meshes and materials, one-field material variants incl. every texture and extension, TRS, GPU instances, lights, both containers, index-width boundary 65535/65536/65537) are written; an independent reader checks container/chunk lengths, every index reference, view/accessor ranges, alignment, min/max, index values, attribute counts, extension declarations, then decodes payloads (float32/integer image), node and instance transforms and checks that shared things are stored once and distinct things never share an entry. Known finding (misaligned views after odd u16 indices) matched by a precise predicate and counted. Sub-check concurrent-*: 2-5 generated cases run at the same time on their own goroutines after each passed alone (no scratch state may be shared between calls). Sampling level.",
+            "Generated scenes (0..5 models, shared/equal-by-value meshes and materials, one-field material variants incl. every texture and extension, TRS, GPU instances, lights, both containers, index-width boundary 65535/65536/65537) are written; an independent reader checks container/chunk lengths, every index reference, view/accessor ranges, alignment, min/max, index values, attribute counts, extension declarations, then decodes payloads (float32/integer image), node and instance transforms and checks that shared things are stored once and distinct things never share an entry. Known finding (misaligned views after odd u16 indices) matched by a precise predicate and counted. Sub-check index-count-sweep: every triangle count 1..1 500 (thorough 1..9 000) once. Sub-check concurrent-*: 2-5 generated cases run at the same time on their own goroutines after each passed alone (no scratch state may be shared between calls). Sampling level.",
             "Trusted: the harness glTF reader (written from the specification). Valid scenes only; colour factors compared at the writer's 3-decimal rounding.",
             "DESIGN.md §4 C06"),
     "C07": ("exploration",
             "property-based testing (rapid): size law + independent 50-byte record parser, round trips mesh->bytes->mesh and bytes->Binary->bytes",
-            "Generated triangle meshes (any index pattern, +-normals, zero/degenerate triangles, 60 orders of magnitude) and raw well-formed STL byte strings: length == 84+50n, own record parser, positions bit-equal to the float32 image, facet normal = normalised mean / geometric normal (1e-6), Write(Read(bytes)) == bytes, WriteMesh(ReadMesh(bytes)) reproduces the records. Bytes reach the decoder through six reader behaviours (short reads). Sub-check large: 81..131 072 records (beyond one 4 096-byte buffer, 8 and 16 bits, exact multiples of 65 536). Sub-check concurrent-*: 2-5 generated cases run at the same time on their own goroutines after each passed alone (no scratch state may be shared between calls). Sampling level.",
+            "Generated triangle meshes (any index pattern, +-normals, zero/degenerate triangles, 60 orders of magnitude) and raw well-formed STL byte strings: length == 84+50n, own record parser, positions bit-equal to the float32 image, facet normal = normalised mean / geometric normal (1e-6), Write(Read(bytes)) == bytes, WriteMesh(ReadMesh(bytes)) reproduces the records. Bytes reach the decoder through six reader behaviours (short reads). Sub-check large: 81..131 072 records (beyond one 4 096-byte buffer, 8 and 16 bits, exact multiples of 65 536); count-sweep: every record count 1..3 000 (thorough 1..45 000) once. Sub-check concurrent-*: 2-5 generated cases run at the same time on their own goroutines after each passed alone (no scratch state may be shared between calls). Sampling level.",
             "Trusted: the harness record parser; normals judged only when well-conditioned (stated band).",
             "DESIGN.md §4 C07"),
     "C08": ("exploration",
             "property-based testing (rapid): independent reference ENCODER emits files from the specification's grammar; expected mesh computed from the description",
-            "An independent reference encoder (harness/internal/plyref) emits PLY files with any property order, alias spellings, unrecognised scalars, comment/obj_info lines, CRLF headers, uchar/int/uint counts, int/uint indices, triangles and quads, optional texcoord list before/after the index list, in ascii/LE/BE; the decoded mesh must equal the mesh the specification assigns (vertex i = record i, 8-bit /255, quad fan (0,1,2)(0,2,3), per-face uvs per corner, nothing invented). Each file is delivered through one of six reader behaviours (whole, 1 byte per Read, half reads, 7-byte chunks, data with the final error, small bufio); one file in twelve has 100-400 vertices. Sub-check huge-files: hand-built files of 2^24+8 vertices whose faces name vertex numbers beyond 2^24 (three encodings, uchar/int counts, int/uint indices). Sampling level.",
+            "An independent reference encoder (harness/internal/plyref) emits PLY files with any property order, alias spellings, unrecognised scalars, comment/obj_info lines, CRLF headers, uchar/int/uint counts, int/uint indices, triangles and quads, optional texcoord list before/after the index list, in ascii/LE/BE; the decoded mesh must equal the mesh the specification assigns (vertex i = record i, 8-bit /255, quad fan (0,1,2)(0,2,3), per-face uvs per corner, nothing invented). Each file is delivered through one of six reader behaviours (whole, 1 byte per Read, half reads, 7-byte chunks, data with the final error, small bufio); one file in twelve has 100-400 vertices. One file in ~28 is wide (40..600 extra scalar properties: ascii lines of 1..15 KiB, binary records of kilobytes) or has a header comment line of 300..5 000 bytes. Sub-check huge-files: hand-built files of 2^24+8 vertices whose faces name vertex numbers beyond 2^24 (three encodings, uchar/int counts, int/uint indices). Sampling level.",
             "Trusted: the reference encoder. One scalar type per group; uchar scalars excluded in ascii (known finding, pinned reproducer).",
             "DESIGN.md §4 C08"),
     "C09": ("exploration",
             "property-based testing (rapid): generated unions of analytic shapes at block-boundary positions; closed-oriented-surface validity predicate + exact-SDF distance and reference-volume oracles",
-            "Generated unions of spheres/boxes/capsules placed at and around the canvas' 100^3 storage-block boundaries (0..3 axes straddled, negative coordinates), resolutions 0.4..100 (thorough 1000) cubes per unit, cutoffs in [-1 cell, 0]: every directed edge balanced and of multiplicity one, except for the two faces of one known finding (merge by rounding: pinches, and cracks at block seams, both only within tau of a lattice corner and each matched by its own predicate), no repeated vertex in a triangle, positive volume within area x cell of a voxel-counted reference, every vertex within one cell of the exact isosurface. Cases cost 0.3-2.5 s, so ~100 (quick) / ~2400 (thorough) cases. Sampling level.",
+            "Generated unions of spheres/boxes/capsules placed at and around the canvas' 100^3 storage-block boundaries (0..3 axes straddled, negative coordinates), resolutions 0.4..100 (thorough 1000) cubes per unit, cutoffs in [-1 cell, 0]: every directed edge balanced and of multiplicity one, except for the two faces of one known finding (merge by rounding: pinches, and cracks at block seams, both only within tau of a lattice corner and each matched by its own predicate), no repeated vertex in a triangle, positive volume within area x cell of a voxel-counted reference, every vertex within one cell of the exact isosurface. Sub-checks on prescribed lattice samples: all 255 cube configurations through the canvas and through Field.March, every inside/outside assignment of two cells sharing a face (3 x 4 095), random 2..5^3 patterns - closed, consistently oriented, one vertex per cut edge at its midpoint. Cases of the shape sub-check cost 0.3-2.5 s, so ~100 (quick) / ~2400 (thorough) cases. Sampling level (the configuration lists are exhaustive).",
             "Trusted: the exact SDFs and the voxel reference in harness/c09. Strength 1, cutoff <= 0.",
             "DESIGN.md §4 C09"),
     "C10": ("exploration",
             "property-based testing (rapid) under the Go race detector, repeated under taskset CPU masks: visit-count / bit-identical-output / triangle-multiset differential against the sequential variants",
-            "Generated element counts (incl. fewer than workers, non-multiples), pool sizes 1..33, three topologies: every primitive/element visited exactly once with its own data, Modify*Parallel bit-identical to sequential; asymmetric marching fields inside one block or across boundaries: AddFieldParallel, AddFieldParallel2, MarchParallel give the sequential triangle multiset. Thorough tier adds marching-blocks (a field covering a whole storage block, capsules 420 and 2050 cells long: more jobs than workers and than the job channel holds; 15-minute watchdog = 'hang'). The binary is race-instrumented; any race report while a case runs is a violation; campaigns run concurrently under taskset masks so NumCPU-sized pools vary. Schedules are sampled, not owned.",
+            "Generated element counts (incl. fewer than workers, non-multiples), pool sizes 1..33, three topologies: every primitive/element visited exactly once with its own data, Modify*Parallel bit-identical to sequential; asymmetric marching fields inside one block or across boundaries: AddFieldParallel, AddFieldParallel2, MarchParallel give the sequential triangle multiset; fields carry 1..3 float1 functions, one case in four is a ball clipped by its domain on the last sample layer of a block. Thorough tier adds marching-blocks (a field covering a whole storage block, capsules 420 and 2050 cells long: more jobs than workers and than the job channel holds; 15-minute watchdog = 'hang'). The binary is race-instrumented; any race report while a case runs is a violation; campaigns run concurrently under taskset masks so NumCPU-sized pools vary. Schedules are sampled, not owned.",
             "Trusted: the Go race detector; callbacks are race-free. Rare interleavings are only sampled.",
             "DESIGN.md §4 C10"),
     "C11": ("exploration",
             "stateful model-based property testing (rapid): action histories against a from-scratch evaluator and a logical-clock execution model",
-            "Generated histories (up to 72 actions, <= 14 nodes) of add node / connect / reconnect / disconnect (incl. array inputs) / set source (also same value, parameter sources through ApplyMessage) / read / State() over harness-defined processors that count their executions: every read equals a from-scratch evaluation; a processor executes during a read only if something in its upstream closure changed since its last execution, at most once; Version() == executions after every step; State() matches the model. Histories include a CLI-bound parameter, bursts of 2/255/256/257/512/1024 consecutive edits and a drawn prefix before the first read. Replays of failing histories run 20x because the pinned-tree defect depended on map order. Sampling level.",
+            "Generated histories (up to 72 actions, <= 14 nodes) of add node / connect / reconnect / disconnect (incl. array inputs) / set source (also same value, parameter sources through ApplyMessage) / read / State() over harness-defined processors that count their executions: every read equals a from-scratch evaluation; a processor executes during a read only if something in its upstream closure changed since its last execution, at most once; Version() == executions after every step; State() matches the model. Processors include one that returns an error with its value and one with two array and two plain inputs (connectMany: 9..40 entries at once, more than 12 dependencies). Histories include a CLI-bound parameter, bursts of 2/255/256/257/512/1024 consecutive edits and a drawn prefix before the first read. Replays of failing histories run 20x because the pinned-tree defect depended on map order. Sampling level.",
             "Trusted: the model in harness/c11. Processors read all connected inputs; acyclic graphs.",
             "DESIGN.md §4 C11"),
     "C12": ("exploration",
             "stateful property testing (rapid) on generator.App through a build-tag hook: edit histories, save -> load into a fresh App -> compare -> save again; shipped graph files enumerated",
-            "Generated edit histories (up to ~90 actions) over every registered node type (all packages cmd/polyform imports + two harness nodes): create, connect incl. array inputs beyond ten entries, disconnect, parameter updates of every parameter type, rename, producers, nested metadata set/delete, delete; at drawn points and at the end the graph is saved, loaded into a fresh App and compared (ids, types, ordered dependencies, parameter payloads, producers, metadata, app fields), artifacts of deterministic producers compared, second save byte-identical, two saves identical; bursts of up to 130 nodes and text artefacts, saved parameter data compared entry by entry, a producer that fails deterministically must fail the same way after the reload; every shipped graph file loaded/saved/loaded/saved. Known finding (jbtf ignores bufferView length) excluded by construction and pinned. Sampling level.",
+            "Generated edit histories (up to ~90 actions) over every registered node type (all packages cmd/polyform imports + two harness nodes): create, connect incl. array inputs beyond ten entries, disconnect, parameter updates of every parameter type, rename, producers, nested metadata set/delete, delete; at drawn points and at the end the graph is saved, loaded into a fresh App and compared (ids, types, ordered dependencies, parameter payloads, producers, metadata, app fields), artifacts of deterministic producers compared, second save byte-identical, two saves identical; bursts of up to 130 nodes (rarely 1 001..1 100 entries on one array input) and text artefacts, saved parameter data compared entry by entry, a producer that fails deterministically must fail the same way after the reload; every shipped graph file loaded/saved/loaded/saved. Known finding (jbtf ignores bufferView length) excluded by construction and pinned. Sampling level.",
             "Trusted: graph.Instance.Schema() as the observable view plus ParameterData; hook generator/verif_hooks.go (add-only, build tag verif).",
             "DESIGN.md §4 C12"),
     "C13": ("exploration",
@@ -73,7 +73,7 @@ CLAIMED = {
             "DESIGN.md §4 C13"),
     "C14": ("fault_enumeration",
             "fault enumeration over generated files: EVERY cut position (every token boundary for ascii bodies) of each generated valid PLY/STL/SPZ/.splat/PTS file is decoded and classified",
-            "For each generated valid file (reference-encoded and writer-produced PLY in three encodings with faces/texcoords/quads, binary STL, gzip'd SPZ v1/v2 with arbitrary packed bytes, .splat, PTS with 3/4/7 columns) every cut position is decoded under a watchdog: outcome must be an error, the complete mesh (only trailing framing cut), the fully contained splats, or a value-equal subset; a runtime panic, fabricated/shifted value, extra element or non-termination is a violation. Files are delivered through six reader behaviours (short reads, data with the final error). Sub-check large-files: element counts at 255/256/65 535/65 536 and buffer-size multiples with 24 sampled cuts each. Exhaustive per file (~300 cuts/file, ~10^6 cuts quick); files are sampled.",
+            "For each generated valid file (reference-encoded and writer-produced PLY in three encodings with faces/texcoords/quads, binary STL, gzip'd SPZ v1/v2 with arbitrary packed bytes, .splat, PTS with 3/4/7 columns) every cut position is decoded under a watchdog: outcome must be an error, the complete mesh (only trailing framing cut), the fully contained splats, or a value-equal subset; a runtime panic, fabricated/shifted value, extra element or non-termination is a violation. Files are delivered through six reader behaviours (short reads, data with the final error). Sub-check stl-count-sweep: every triangle count 1..2 000 (thorough 1..45 000), three late cuts each, judged against the recipe. Sub-check large-files: element counts at 255/256/65 535/65 536 and buffer-size multiples with 24 sampled cuts each. Exhaustive per file (~300 cuts/file, ~10^6 cuts quick); files are sampled.",
             "Trusted: decode of the complete file as the reference; watchdog (10 s, re-confirmed for another 50 s before it is reported) as 'terminates'. In-number cuts of ascii bodies are outside the quantifier.",
             "DESIGN.md §4 C14"),
     "C15": ("exploration",
@@ -83,7 +83,7 @@ CLAIMED = {
             "DESIGN.md §4 C15"),
     "C16": ("exploration",
             "property-based testing (rapid): differential against an exhaustive scan over the same element objects (don't-care band at decision boundaries), the elements themselves judged against closest-point geometry computed from the case's vertices",
-            "Generated point/segment/triangle sets (clustered, grid-aligned, coincident, single element), depths 0..6 and automatic, query points on/off vertices, radii, rays: ClosestPoint distance and index, every element's own closest point against the point-to-point/segment/triangle distance from the case's vertices (1e-7*scale; triangles thinner than 1e-4 counted, not judged; trees built on a non-position attribute carry a decoy position attribute), containing-point / within-range / ray sets (band 1e-9*scale), traversal with shrinking max, bounding box; BVH vs HitList vs octree-of-hittables vs mesh hit (flag and distance). One case in sixteen repeats its queries from 2-6 goroutines on the same tree (value-receiver queries only). Sampling level.",
+            "Generated point/segment/triangle sets (clustered, grid-aligned, coincident, single element), depths 0..6 and automatic, query points on/off vertices, radii, rays: ClosestPoint distance and index, every element's own closest point against the point-to-point/segment/triangle distance from the case's vertices (1e-7*scale; triangles thinner than 1e-4 counted, not judged; trees built on a non-position attribute carry a decoy position attribute), containing-point / within-range / ray sets (band 1e-9*scale), traversal with shrinking max, bounding box; BVH vs HitList vs octree-of-hittables vs mesh hit (flag and distance). Sub-check octree-large: 181..20 000 recipe-built elements (automatic depths 2..5). When all coordinates are dyadic the within-range decision is judged on the boundary itself (no band; radii equal to an element's box distance are drawn). One case in sixteen repeats its queries from 2-6 goroutines on the same tree (value-receiver queries only). Sampling level.",
             "Trusted: element bounding boxes and ray tests (pruning and the closest-point contract are under test); band keeps 1-ulp box re-centring ties silent.",
             "DESIGN.md §4 C16"),
     "C17": ("exploration",
